@@ -63,6 +63,11 @@
 (*        table in a package-level variable": NoRace and TextEqual fail    *)
 (*        from every start state, even for printers of different modules   *)
 (*        (the cell does not belong to a module).                          *)
+(*   NumberUpFront  TRUE as the code is since 094ed28: Module.WriteTo runs   *)
+(*        AssignIDs of every function (each under that function's mutex)   *)
+(*        right after the metadata IDs, before anything is printed; the    *)
+(*        Func.LLString of each function later takes the mutex again and   *)
+(*        finds nothing to write.  FALSE: only Func.LLString numbers.      *)
 (*   StaleLocals  TRUE: the module was printed and then edited (an unnamed *)
 (*        instruction inserted in front): every cached LocalID is off by   *)
 (*        one, the next print has to renumber (stale, not unassigned).     *)
@@ -119,7 +124,7 @@ CONSTANTS ModulePrinters, FuncPrinters, BlockPrinters,   \* disjoint sets of pro
           MdCase,                 \* selects MdInit, the metadata IDs of a fresh module (a cfg cannot hold a tuple)
           WriteOnlyIfChanged, StartPrinted, CachePrefilled, LockGlobals, LockLocals,
           GCachePrefilled, FillGlobalCachesUnderLock, SharedScratch,
-          StaleLocals, Orphans, LockViaParent
+          StaleLocals, Orphans, LockViaParent, NumberUpFront
 
 Printers == ModulePrinters \cup FuncPrinters \cup BlockPrinters
 MdInit == CASE MdCase = 0 -> <<>>
@@ -166,7 +171,7 @@ define
 end define;
 
 fair process printer \in Printers
-variables c = 1, f = 1, last = 1, tmp = 0;
+variables c = 1, f = 1, last = 1, tmp = 0, pre = FALSE;
 begin
 Start:
   if self \in ModulePrinters then
@@ -208,6 +213,9 @@ WrM:  if tmp = -1 then mid[c] := WantM[c]; end if;                     \* md.Set
 UnlockM:
   if LockGlobals then mmu := 0; end if;
   c := 1;
+\* ---- Module.WriteTo: for every function f.assignIDs, before anything is printed
+UpFront:
+  if NumberUpFront /\ NF > 0 then pre := TRUE; goto LockF; end if;
 \* ---- global definitions: g.Ident() without a lock ----------------------
 PG:
   while c <= NG do
@@ -241,6 +249,14 @@ UnlockF:
     mmu := 0;
   end if;
   c := 1;
+AfterF:
+  if pre then
+    if f < last then
+      f := f + 1; goto LockF;
+    else
+      pre := FALSE; f := 1; goto PG;
+    end if;
+  end if;
 \* ---- header and body: every read without a lock ------------------------
 EmG:
   while c <= NG do
@@ -282,10 +298,10 @@ LoneG(p, x) == IF p \in ModulePrinters THEN WantG(x) ELSE InitG(x)
 LoneM(p, d) == IF p \in ModulePrinters THEN WantM[d] ELSE InitM(d)
 LoneL(p, x) == IF p \in ModulePrinters \cup FuncPrinters THEN WantL(x) ELSE InitL(x)
 
-VARIABLES c, f, last, tmp
+VARIABLES c, f, last, tmp, pre
 
 vars == << pc, gid, mid, lid, typ, gtyp, scratch, mmu, fmu, bad, c, f, last, 
-           tmp >>
+           tmp, pre >>
 
 ProcSet == (Printers)
 
@@ -304,6 +320,7 @@ Init == (* Global variables *)
         /\ f = [self \in Printers |-> 1]
         /\ last = [self \in Printers |-> 1]
         /\ tmp = [self \in Printers |-> 0]
+        /\ pre = [self \in Printers |-> FALSE]
         /\ pc = [self \in ProcSet |-> "Start"]
 
 Start(self) == /\ pc[self] = "Start"
@@ -318,7 +335,7 @@ Start(self) == /\ pc[self] = "Start"
                                 THEN /\ pc' = [pc EXCEPT ![self] = "LockF"]
                                 ELSE /\ pc' = [pc EXCEPT ![self] = "EmG"]
                /\ UNCHANGED << gid, mid, lid, typ, gtyp, scratch, mmu, fmu, 
-                               bad, c, tmp >>
+                               bad, c, tmp, pre >>
 
 LockG(self) == /\ pc[self] = "LockG"
                /\ IF LockGlobals
@@ -328,20 +345,20 @@ LockG(self) == /\ pc[self] = "LockG"
                           /\ mmu' = mmu
                /\ pc' = [pc EXCEPT ![self] = "AG"]
                /\ UNCHANGED << gid, mid, lid, typ, gtyp, scratch, fmu, bad, c, 
-                               f, last, tmp >>
+                               f, last, tmp, pre >>
 
 AG(self) == /\ pc[self] = "AG"
             /\ IF c[self] <= NG
                   THEN /\ pc' = [pc EXCEPT ![self] = "RdG"]
                   ELSE /\ pc' = [pc EXCEPT ![self] = "UnlockG"]
             /\ UNCHANGED << gid, mid, lid, typ, gtyp, scratch, mmu, fmu, bad, 
-                            c, f, last, tmp >>
+                            c, f, last, tmp, pre >>
 
 RdG(self) == /\ pc[self] = "RdG"
              /\ tmp' = [tmp EXCEPT ![self] = gid[c[self]]]
              /\ pc' = [pc EXCEPT ![self] = "WrG"]
              /\ UNCHANGED << gid, mid, lid, typ, gtyp, scratch, mmu, fmu, bad, 
-                             c, f, last >>
+                             c, f, last, pre >>
 
 WrG(self) == /\ pc[self] = "WrG"
              /\ IF WriteNeeded(tmp[self], WantG(c[self]))
@@ -352,13 +369,13 @@ WrG(self) == /\ pc[self] = "WrG"
                    THEN /\ pc' = [pc EXCEPT ![self] = "FgT"]
                    ELSE /\ pc' = [pc EXCEPT ![self] = "NxG"]
              /\ UNCHANGED << mid, lid, typ, gtyp, scratch, mmu, fmu, bad, c, f, 
-                             last, tmp >>
+                             last, tmp, pre >>
 
 FgT(self) == /\ pc[self] = "FgT"
              /\ tmp' = [tmp EXCEPT ![self] = IF gtyp[c[self]] THEN 1 ELSE 0]
              /\ pc' = [pc EXCEPT ![self] = "FwT"]
              /\ UNCHANGED << gid, mid, lid, typ, gtyp, scratch, mmu, fmu, bad, 
-                             c, f, last >>
+                             c, f, last, pre >>
 
 FwT(self) == /\ pc[self] = "FwT"
              /\ IF tmp[self] = 0
@@ -367,13 +384,13 @@ FwT(self) == /\ pc[self] = "FwT"
                         /\ gtyp' = gtyp
              /\ pc' = [pc EXCEPT ![self] = "NxG"]
              /\ UNCHANGED << gid, mid, lid, typ, scratch, mmu, fmu, bad, c, f, 
-                             last, tmp >>
+                             last, tmp, pre >>
 
 NxG(self) == /\ pc[self] = "NxG"
              /\ c' = [c EXCEPT ![self] = c[self] + 1]
              /\ pc' = [pc EXCEPT ![self] = "AG"]
              /\ UNCHANGED << gid, mid, lid, typ, gtyp, scratch, mmu, fmu, bad, 
-                             f, last, tmp >>
+                             f, last, tmp, pre >>
 
 UnlockG(self) == /\ pc[self] = "UnlockG"
                  /\ IF LockGlobals
@@ -383,7 +400,7 @@ UnlockG(self) == /\ pc[self] = "UnlockG"
                  /\ c' = [c EXCEPT ![self] = 1]
                  /\ pc' = [pc EXCEPT ![self] = "LockM"]
                  /\ UNCHANGED << gid, mid, lid, typ, gtyp, scratch, fmu, bad, 
-                                 f, last, tmp >>
+                                 f, last, tmp, pre >>
 
 LockM(self) == /\ pc[self] = "LockM"
                /\ IF LockGlobals
@@ -393,7 +410,7 @@ LockM(self) == /\ pc[self] = "LockM"
                           /\ mmu' = mmu
                /\ pc' = [pc EXCEPT ![self] = "IM"]
                /\ UNCHANGED << gid, mid, lid, typ, gtyp, scratch, fmu, bad, c, 
-                               f, last, tmp >>
+                               f, last, tmp, pre >>
 
 IM(self) == /\ pc[self] = "IM"
             /\ IF c[self] <= NM
@@ -402,27 +419,27 @@ IM(self) == /\ pc[self] = "IM"
                   ELSE /\ c' = [c EXCEPT ![self] = 1]
                        /\ pc' = [pc EXCEPT ![self] = "AM"]
             /\ UNCHANGED << gid, mid, lid, typ, gtyp, scratch, mmu, fmu, bad, 
-                            f, last, tmp >>
+                            f, last, tmp, pre >>
 
 RdM1(self) == /\ pc[self] = "RdM1"
               /\ tmp' = [tmp EXCEPT ![self] = mid[c[self]]]
               /\ c' = [c EXCEPT ![self] = c[self] + 1]
               /\ pc' = [pc EXCEPT ![self] = "IM"]
               /\ UNCHANGED << gid, mid, lid, typ, gtyp, scratch, mmu, fmu, bad, 
-                              f, last >>
+                              f, last, pre >>
 
 AM(self) == /\ pc[self] = "AM"
             /\ IF c[self] <= NM
                   THEN /\ pc' = [pc EXCEPT ![self] = "RdM"]
                   ELSE /\ pc' = [pc EXCEPT ![self] = "UnlockM"]
             /\ UNCHANGED << gid, mid, lid, typ, gtyp, scratch, mmu, fmu, bad, 
-                            c, f, last, tmp >>
+                            c, f, last, tmp, pre >>
 
 RdM(self) == /\ pc[self] = "RdM"
              /\ tmp' = [tmp EXCEPT ![self] = mid[c[self]]]
              /\ pc' = [pc EXCEPT ![self] = "WrM"]
              /\ UNCHANGED << gid, mid, lid, typ, gtyp, scratch, mmu, fmu, bad, 
-                             c, f, last >>
+                             c, f, last, pre >>
 
 WrM(self) == /\ pc[self] = "WrM"
              /\ IF tmp[self] = -1
@@ -432,7 +449,7 @@ WrM(self) == /\ pc[self] = "WrM"
              /\ c' = [c EXCEPT ![self] = c[self] + 1]
              /\ pc' = [pc EXCEPT ![self] = "AM"]
              /\ UNCHANGED << gid, lid, typ, gtyp, scratch, mmu, fmu, bad, f, 
-                             last, tmp >>
+                             last, tmp, pre >>
 
 UnlockM(self) == /\ pc[self] = "UnlockM"
                  /\ IF LockGlobals
@@ -440,9 +457,18 @@ UnlockM(self) == /\ pc[self] = "UnlockM"
                        ELSE /\ TRUE
                             /\ mmu' = mmu
                  /\ c' = [c EXCEPT ![self] = 1]
-                 /\ pc' = [pc EXCEPT ![self] = "PG"]
+                 /\ pc' = [pc EXCEPT ![self] = "UpFront"]
                  /\ UNCHANGED << gid, mid, lid, typ, gtyp, scratch, fmu, bad, 
-                                 f, last, tmp >>
+                                 f, last, tmp, pre >>
+
+UpFront(self) == /\ pc[self] = "UpFront"
+                 /\ IF NumberUpFront /\ NF > 0
+                       THEN /\ pre' = [pre EXCEPT ![self] = TRUE]
+                            /\ pc' = [pc EXCEPT ![self] = "LockF"]
+                       ELSE /\ pc' = [pc EXCEPT ![self] = "PG"]
+                            /\ pre' = pre
+                 /\ UNCHANGED << gid, mid, lid, typ, gtyp, scratch, mmu, fmu, 
+                                 bad, c, f, last, tmp >>
 
 PG(self) == /\ pc[self] = "PG"
             /\ IF c[self] <= NG
@@ -453,32 +479,32 @@ PG(self) == /\ pc[self] = "PG"
                   ELSE /\ c' = [c EXCEPT ![self] = 1]
                        /\ pc' = [pc EXCEPT ![self] = "LockF"]
             /\ UNCHANGED << gid, mid, lid, typ, gtyp, scratch, mmu, fmu, bad, 
-                            f, last, tmp >>
+                            f, last, tmp, pre >>
 
 PrG(self) == /\ pc[self] = "PrG"
              /\ bad' = [bad EXCEPT ![self] = bad[self] \/ gid[c[self]] # LoneG(self, c[self])]
              /\ c' = [c EXCEPT ![self] = c[self] + 1]
              /\ pc' = [pc EXCEPT ![self] = "PG"]
              /\ UNCHANGED << gid, mid, lid, typ, gtyp, scratch, mmu, fmu, f, 
-                             last, tmp >>
+                             last, tmp, pre >>
 
 SwG(self) == /\ pc[self] = "SwG"
              /\ scratch' = self
              /\ pc' = [pc EXCEPT ![self] = "SrG"]
              /\ UNCHANGED << gid, mid, lid, typ, gtyp, mmu, fmu, bad, c, f, 
-                             last, tmp >>
+                             last, tmp, pre >>
 
 SrG(self) == /\ pc[self] = "SrG"
              /\ bad' = [bad EXCEPT ![self] = bad[self] \/ scratch # self]
              /\ pc' = [pc EXCEPT ![self] = "ScG"]
              /\ UNCHANGED << gid, mid, lid, typ, gtyp, scratch, mmu, fmu, c, f, 
-                             last, tmp >>
+                             last, tmp, pre >>
 
 ScG(self) == /\ pc[self] = "ScG"
              /\ scratch' = 0
              /\ pc' = [pc EXCEPT ![self] = "PrG"]
              /\ UNCHANGED << gid, mid, lid, typ, gtyp, mmu, fmu, bad, c, f, 
-                             last, tmp >>
+                             last, tmp, pre >>
 
 LockF(self) == /\ pc[self] = "LockF"
                /\ IF LockLocals /\ ~LockViaParent
@@ -493,20 +519,20 @@ LockF(self) == /\ pc[self] = "LockF"
                           /\ fmu' = fmu
                /\ pc' = [pc EXCEPT ![self] = "AL"]
                /\ UNCHANGED << gid, mid, lid, typ, gtyp, scratch, bad, c, f, 
-                               last, tmp >>
+                               last, tmp, pre >>
 
 AL(self) == /\ pc[self] = "AL"
             /\ IF c[self] <= NL
                   THEN /\ pc' = [pc EXCEPT ![self] = "RdT"]
                   ELSE /\ pc' = [pc EXCEPT ![self] = "UnlockF"]
             /\ UNCHANGED << gid, mid, lid, typ, gtyp, scratch, mmu, fmu, bad, 
-                            c, f, last, tmp >>
+                            c, f, last, tmp, pre >>
 
 RdT(self) == /\ pc[self] = "RdT"
              /\ tmp' = [tmp EXCEPT ![self] = IF typ[f[self]][c[self]] THEN 1 ELSE 0]
              /\ pc' = [pc EXCEPT ![self] = "WrT"]
              /\ UNCHANGED << gid, mid, lid, typ, gtyp, scratch, mmu, fmu, bad, 
-                             c, f, last >>
+                             c, f, last, pre >>
 
 WrT(self) == /\ pc[self] = "WrT"
              /\ IF tmp[self] = 0
@@ -515,13 +541,13 @@ WrT(self) == /\ pc[self] = "WrT"
                         /\ typ' = typ
              /\ pc' = [pc EXCEPT ![self] = "RdL"]
              /\ UNCHANGED << gid, mid, lid, gtyp, scratch, mmu, fmu, bad, c, f, 
-                             last, tmp >>
+                             last, tmp, pre >>
 
 RdL(self) == /\ pc[self] = "RdL"
              /\ tmp' = [tmp EXCEPT ![self] = lid[f[self]][c[self]]]
              /\ pc' = [pc EXCEPT ![self] = "WrL"]
              /\ UNCHANGED << gid, mid, lid, typ, gtyp, scratch, mmu, fmu, bad, 
-                             c, f, last >>
+                             c, f, last, pre >>
 
 WrL(self) == /\ pc[self] = "WrL"
              /\ IF WriteNeeded(tmp[self], WantL(c[self]))
@@ -531,7 +557,7 @@ WrL(self) == /\ pc[self] = "WrL"
              /\ c' = [c EXCEPT ![self] = c[self] + 1]
              /\ pc' = [pc EXCEPT ![self] = "AL"]
              /\ UNCHANGED << gid, mid, typ, gtyp, scratch, mmu, fmu, bad, f, 
-                             last, tmp >>
+                             last, tmp, pre >>
 
 UnlockF(self) == /\ pc[self] = "UnlockF"
                  /\ IF LockLocals /\ ~LockViaParent
@@ -543,9 +569,23 @@ UnlockF(self) == /\ pc[self] = "UnlockF"
                                        /\ mmu' = mmu
                             /\ fmu' = fmu
                  /\ c' = [c EXCEPT ![self] = 1]
-                 /\ pc' = [pc EXCEPT ![self] = "EmG"]
+                 /\ pc' = [pc EXCEPT ![self] = "AfterF"]
                  /\ UNCHANGED << gid, mid, lid, typ, gtyp, scratch, bad, f, 
-                                 last, tmp >>
+                                 last, tmp, pre >>
+
+AfterF(self) == /\ pc[self] = "AfterF"
+                /\ IF pre[self]
+                      THEN /\ IF f[self] < last[self]
+                                 THEN /\ f' = [f EXCEPT ![self] = f[self] + 1]
+                                      /\ pc' = [pc EXCEPT ![self] = "LockF"]
+                                      /\ pre' = pre
+                                 ELSE /\ pre' = [pre EXCEPT ![self] = FALSE]
+                                      /\ f' = [f EXCEPT ![self] = 1]
+                                      /\ pc' = [pc EXCEPT ![self] = "PG"]
+                      ELSE /\ pc' = [pc EXCEPT ![self] = "EmG"]
+                           /\ UNCHANGED << f, pre >>
+                /\ UNCHANGED << gid, mid, lid, typ, gtyp, scratch, mmu, fmu, 
+                                bad, c, last, tmp >>
 
 EmG(self) == /\ pc[self] = "EmG"
              /\ IF c[self] <= NG
@@ -554,13 +594,13 @@ EmG(self) == /\ pc[self] = "EmG"
                    ELSE /\ c' = [c EXCEPT ![self] = 1]
                         /\ pc' = [pc EXCEPT ![self] = "EmM"]
              /\ UNCHANGED << gid, mid, lid, typ, gtyp, scratch, mmu, fmu, bad, 
-                             f, last, tmp >>
+                             f, last, tmp, pre >>
 
 PrGT(self) == /\ pc[self] = "PrGT"
               /\ tmp' = [tmp EXCEPT ![self] = IF gtyp[c[self]] THEN 1 ELSE 0]
               /\ pc' = [pc EXCEPT ![self] = "PwGT"]
               /\ UNCHANGED << gid, mid, lid, typ, gtyp, scratch, mmu, fmu, bad, 
-                              c, f, last >>
+                              c, f, last, pre >>
 
 PwGT(self) == /\ pc[self] = "PwGT"
               /\ IF tmp[self] = 0
@@ -569,14 +609,14 @@ PwGT(self) == /\ pc[self] = "PwGT"
                          /\ gtyp' = gtyp
               /\ pc' = [pc EXCEPT ![self] = "PrEG"]
               /\ UNCHANGED << gid, mid, lid, typ, scratch, mmu, fmu, bad, c, f, 
-                              last, tmp >>
+                              last, tmp, pre >>
 
 PrEG(self) == /\ pc[self] = "PrEG"
               /\ bad' = [bad EXCEPT ![self] = bad[self] \/ gid[c[self]] # LoneG(self, c[self])]
               /\ c' = [c EXCEPT ![self] = c[self] + 1]
               /\ pc' = [pc EXCEPT ![self] = "EmG"]
               /\ UNCHANGED << gid, mid, lid, typ, gtyp, scratch, mmu, fmu, f, 
-                              last, tmp >>
+                              last, tmp, pre >>
 
 EmM(self) == /\ pc[self] = "EmM"
              /\ IF c[self] <= NM
@@ -585,14 +625,14 @@ EmM(self) == /\ pc[self] = "EmM"
                    ELSE /\ c' = [c EXCEPT ![self] = 1]
                         /\ pc' = [pc EXCEPT ![self] = "EmL"]
              /\ UNCHANGED << gid, mid, lid, typ, gtyp, scratch, mmu, fmu, bad, 
-                             f, last, tmp >>
+                             f, last, tmp, pre >>
 
 PrEM(self) == /\ pc[self] = "PrEM"
               /\ bad' = [bad EXCEPT ![self] = bad[self] \/ mid[c[self]] # LoneM(self, c[self])]
               /\ c' = [c EXCEPT ![self] = c[self] + 1]
               /\ pc' = [pc EXCEPT ![self] = "EmM"]
               /\ UNCHANGED << gid, mid, lid, typ, gtyp, scratch, mmu, fmu, f, 
-                              last, tmp >>
+                              last, tmp, pre >>
 
 EmL(self) == /\ pc[self] = "EmL"
              /\ IF c[self] <= NL
@@ -601,13 +641,13 @@ EmL(self) == /\ pc[self] = "EmL"
                    ELSE /\ c' = [c EXCEPT ![self] = 1]
                         /\ pc' = [pc EXCEPT ![self] = "NextF"]
              /\ UNCHANGED << gid, mid, lid, typ, gtyp, scratch, mmu, fmu, bad, 
-                             f, last, tmp >>
+                             f, last, tmp, pre >>
 
 PrT(self) == /\ pc[self] = "PrT"
              /\ tmp' = [tmp EXCEPT ![self] = IF typ[f[self]][c[self]] THEN 1 ELSE 0]
              /\ pc' = [pc EXCEPT ![self] = "PwT"]
              /\ UNCHANGED << gid, mid, lid, typ, gtyp, scratch, mmu, fmu, bad, 
-                             c, f, last >>
+                             c, f, last, pre >>
 
 PwT(self) == /\ pc[self] = "PwT"
              /\ IF tmp[self] = 0
@@ -616,14 +656,14 @@ PwT(self) == /\ pc[self] = "PwT"
                         /\ typ' = typ
              /\ pc' = [pc EXCEPT ![self] = "PrL"]
              /\ UNCHANGED << gid, mid, lid, gtyp, scratch, mmu, fmu, bad, c, f, 
-                             last, tmp >>
+                             last, tmp, pre >>
 
 PrL(self) == /\ pc[self] = "PrL"
              /\ bad' = [bad EXCEPT ![self] = bad[self] \/ lid[f[self]][c[self]] # LoneL(self, c[self])]
              /\ c' = [c EXCEPT ![self] = c[self] + 1]
              /\ pc' = [pc EXCEPT ![self] = "EmL"]
              /\ UNCHANGED << gid, mid, lid, typ, gtyp, scratch, mmu, fmu, f, 
-                             last, tmp >>
+                             last, tmp, pre >>
 
 NextF(self) == /\ pc[self] = "NextF"
                /\ IF f[self] < last[self]
@@ -632,30 +672,31 @@ NextF(self) == /\ pc[self] = "NextF"
                      ELSE /\ pc' = [pc EXCEPT ![self] = "PM"]
                           /\ f' = f
                /\ UNCHANGED << gid, mid, lid, typ, gtyp, scratch, mmu, fmu, 
-                               bad, c, last, tmp >>
+                               bad, c, last, tmp, pre >>
 
 PM(self) == /\ pc[self] = "PM"
             /\ IF self \in ModulePrinters /\ c[self] <= NM
                   THEN /\ pc' = [pc EXCEPT ![self] = "PrM"]
                   ELSE /\ pc' = [pc EXCEPT ![self] = "Done"]
             /\ UNCHANGED << gid, mid, lid, typ, gtyp, scratch, mmu, fmu, bad, 
-                            c, f, last, tmp >>
+                            c, f, last, tmp, pre >>
 
 PrM(self) == /\ pc[self] = "PrM"
              /\ bad' = [bad EXCEPT ![self] = bad[self] \/ mid[c[self]] # LoneM(self, c[self])]
              /\ c' = [c EXCEPT ![self] = c[self] + 1]
              /\ pc' = [pc EXCEPT ![self] = "PM"]
              /\ UNCHANGED << gid, mid, lid, typ, gtyp, scratch, mmu, fmu, f, 
-                             last, tmp >>
+                             last, tmp, pre >>
 
 printer(self) == Start(self) \/ LockG(self) \/ AG(self) \/ RdG(self)
                     \/ WrG(self) \/ FgT(self) \/ FwT(self) \/ NxG(self)
                     \/ UnlockG(self) \/ LockM(self) \/ IM(self)
                     \/ RdM1(self) \/ AM(self) \/ RdM(self) \/ WrM(self)
-                    \/ UnlockM(self) \/ PG(self) \/ PrG(self) \/ SwG(self)
-                    \/ SrG(self) \/ ScG(self) \/ LockF(self) \/ AL(self)
-                    \/ RdT(self) \/ WrT(self) \/ RdL(self) \/ WrL(self)
-                    \/ UnlockF(self) \/ EmG(self) \/ PrGT(self)
+                    \/ UnlockM(self) \/ UpFront(self) \/ PG(self)
+                    \/ PrG(self) \/ SwG(self) \/ SrG(self) \/ ScG(self)
+                    \/ LockF(self) \/ AL(self) \/ RdT(self) \/ WrT(self)
+                    \/ RdL(self) \/ WrL(self) \/ UnlockF(self)
+                    \/ AfterF(self) \/ EmG(self) \/ PrGT(self)
                     \/ PwGT(self) \/ PrEG(self) \/ EmM(self) \/ PrEM(self)
                     \/ EmL(self) \/ PrT(self) \/ PwT(self) \/ PrL(self)
                     \/ NextF(self) \/ PM(self) \/ PrM(self)
